@@ -9,7 +9,7 @@ ok = True
 only = sys.argv[1:]
 for pid, fn in (("C05", "replay_simplify"), ("C01", "replay_scan"), ("C01", "replay_flag"), ("C01", "replay_scan_avoid"), ("C01", "replay_flag_avoid"), ("C09", "replay_c09"), ("C10", "replay_c10"), ("C15", "replay_ai"), ("C16", "replay_c16"),
                 ("C17", "replay_c17"), ("C18", "replay_c18"), ("C20", "replay_removeoverlaps"), ("C20", "replay_frames"),
-                ("C20", "replay_layout"), ("C05", "replay_estcost"), ("C07", "replay_c07"), ("C08", "replay_c08"), ("C05", "replay_fixvis"), ("C15", "replay_destroy"), ("C15", "replay_release")):
+                ("C20", "replay_layout"), ("C05", "replay_estcost"), ("C07", "replay_c07"), ("C08", "replay_c08"), ("C05", "replay_fixvis"), ("C15", "replay_destroy"), ("C15", "replay_release"), ("C15", "replay_heap")):
     if only and pid not in only:
         continue
     spec = importlib.util.spec_from_file_location("jobs_" + pid, os.path.join(HERE, "contracts", pid, "jobs.py"))
